@@ -98,6 +98,24 @@ func (in *Interp) problem(format string, a ...any) {
 
 // Tabulate computes the outcome may-set of root for every valuation of cfg.Dims.
 func Tabulate(cfg Config, root *core.FuncInfo) *Table {
+	g := cfg.P.GraphOf(root)
+	if g == nil {
+		return &Table{Problems: []string{"no body for " + root.Name()}}
+	}
+	return TabulateGraph(cfg, g, root.Obj.Type().(*types.Signature), root.Obj)
+}
+
+// TabulateLit tabulates a function literal (its free variables are unknown).
+func TabulateLit(cfg Config, lit *ast.FuncLit) *Table {
+	g := cfg.P.GraphOfLit(lit)
+	if g == nil {
+		return &Table{Problems: []string{"no graph for function literal"}}
+	}
+	return TabulateGraph(cfg, g, g.Sig(), nil)
+}
+
+// TabulateGraph is the general form: g is the root body, sig its signature.
+func TabulateGraph(cfg Config, g *core.Graph, sig *types.Signature, rootObj *types.Func) *Table {
 	if cfg.MaxDepth == 0 {
 		cfg.MaxDepth = 6
 	}
@@ -106,11 +124,6 @@ func Tabulate(cfg Config, root *core.FuncInfo) *Table {
 	}
 	in := &Interp{cfg: cfg, problems: map[string]bool{}, dimConsts: map[string]map[int64]bool{}, dimEscape: map[string]map[string]bool{}, escaped: map[*types.Var]bool{}}
 	t := &Table{DimConsts: map[string][]int64{}, DimEscape: map[string][]string{}}
-	g := cfg.P.GraphOf(root)
-	if g == nil {
-		t.Problems = append(t.Problems, "no body for "+root.Name())
-		return t
-	}
 	// enumerate valuations
 	idx := make([]int, len(cfg.Dims))
 	for {
@@ -124,9 +137,8 @@ func Tabulate(cfg Config, root *core.FuncInfo) *Table {
 			val[d.Key] = v
 		}
 		st := &State{store: map[any]Val{}, dims: val}
-		sig := root.Obj.Type().(*types.Signature)
-		in.bindRoot(st, sig, root)
-		in.stack = []*types.Func{root.Obj}
+		in.bindRoot(st, sig)
+		in.stack = []*types.Func{rootObj}
 		exits := in.runGraph(g, st, sig)
 		row := Row{Valuation: val}
 		seen := map[string]bool{}
@@ -177,7 +189,7 @@ func Tabulate(cfg Config, root *core.FuncInfo) *Table {
 	return t
 }
 
-func (in *Interp) bindRoot(st *State, sig *types.Signature, root *core.FuncInfo) {
+func (in *Interp) bindRoot(st *State, sig *types.Signature) {
 	bind := func(v *types.Var, key string) {
 		if v == nil {
 			return
@@ -564,6 +576,18 @@ func (in *Interp) stepRange(g *core.Graph, node *core.Node, st *State, push func
 	var elem Val = Top{}
 	if r, ok := src.(Ref); ok {
 		elem = Ref{Path: "elem(" + r.Path + ")"}
+		// a collection whose length is a dimension iterates exactly that many times
+		if l, ok := in.lookup(st, "len("+r.Path+")", nil).(Const); ok && l.V.Kind() == constant.Int {
+			n, _ := constant.Int64Val(l.V)
+			if i < n {
+				s := assign(st, IntVal(i, types.Typ[types.Int]), Ref{Path: fmt.Sprintf("%s[%d]", r.Path, i)})
+				s.store[rangeIdx{rs}] = IntVal(i+1, types.Typ[types.Int])
+				push(node.Succs[0].To, s)
+			} else {
+				push(node.Succs[1].To, st)
+			}
+			return
+		}
 	}
 	push(node.Succs[0].To, assign(st, Top{}, elem))
 	push(node.Succs[1].To, st)
@@ -1094,6 +1118,7 @@ func (in *Interp) index(base, idx Val, st *State, t types.Type) Val {
 		if iok && ic.V.Kind() == constant.Int {
 			i, _ := constant.Int64Val(ic.V)
 			if l, ok := in.lookup(st, "len("+b.Path+")", nil).(Const); ok {
+				in.noteCompare(l, Const{V: constant.MakeInt64(i + 1), T: types.Typ[types.Int]})
 				if n, _ := constant.Int64Val(l.V); i >= n {
 					return panicVal(fmt.Sprintf("index %d out of range with length %d", i, n))
 				}
